@@ -410,7 +410,7 @@ EnumFromString(E, s) ==
          [] v.style = "struct" -> Fail(Leaf("format", "literal"))
 
 WordVariant(E) ==
-  LET C == {i \in 1..Len(E.variants) : E.variants[i].word}
+  LET C == {i \in 1..Len(E.variants) : E.variants[i].word /\ ~E.variants[i].skip}       \* from_meta.rs:47-49 (skipped variants are not candidates)
   IN IF C = {} THEN 0 ELSE CHOOSE i \in C : \A j \in C : i <= j
 
 \* from_list (from_meta_impl.rs:117-138): exactly one nested item
